@@ -111,6 +111,10 @@ CONTRACTS = {
             ("A2_grows", "implies(v.weight > 0 and self.scale != 0, self.A2 > old(self.A2))"),
             ("same_scale", "implies(self.scale == v.scale, self.AD == old(self.AD) + v.weight * v.desiredPosition and self.A2 == old(self.A2) + v.weight)"),
             ("zero_offset", "implies(v.offset == 0, self.AB == old(self.AB))"),
+            # the three increments exactly as the statement of the stationary point needs them (a = S / s_i, b = o_i / s_i)
+            ("AB_step", "self.AB == old(self.AB) + v.weight * (self.scale / v.scale) * (v.offset / v.scale)"),
+            ("AD_step", "self.AD == old(self.AD) + v.weight * (self.scale / v.scale) * v.desiredPosition"),
+            ("A2_step", "self.A2 == old(self.A2) + v.weight * (self.scale / v.scale) * (self.scale / v.scale)"),
             ("frame", "forall(lambda o: implies(o != self, o.AB == old(o.AB) and o.AD == old(o.AD) and o.A2 == old(o.A2)), 'ref:PositionStats')"),
         ],
     },
@@ -628,6 +632,60 @@ CONTRACTS["vpsc.Block.__init__"] = {
                 ("at_desired_position", "self.posn == v.desiredPosition"),
                 ("reported_position", "spos(v) == v.scale * v.desiredPosition"),
                 ("other_variables_untouched", "forall(lambda u: implies(u is not v and old(alloc(u)), u.block is old(u.block) and u.offset == old(u.offset)), 'ref:Variable')")],
+}
+
+
+def _statsum(which):
+    """prefix sums over a block's member list of the three statistics (uninterpreted, unfolded one step at k):
+    AB: w a b, AD: w a d, A2: w a a  with  a = S / s_i, b = o_i / s_i"""
+    def f(E, P, ctx, blk, k):
+        lst = rd(E, P, blk, "Block", "vars")
+        row = E.l_elems(P, lst)
+        S = rd(E, P, rd(E, P, blk, "Block", "ps"), "PositionStats", "scale").t
+        arrs = [E.heap_array(P, "Variable.%s" % n, RealS) for n in ("weight", "scale", "offset", "desiredPosition")]
+        name = "STAT_" + which
+        g = E.uf.get(name)
+        if g is None:
+            g = E.uf[name] = z3.Function(name, *([row.sort(), RealS] + [a.sort() for a in arrs] + [IntS, RealS]))
+
+        def term(j):
+            v = z3.Select(row, j)
+            w, sc, off, d = (z3.Select(a, v) for a in arrs)
+            a_ = S / sc
+            return {"AB": w * a_ * (off / sc), "AD": w * a_ * d, "A2": w * a_ * a_}[which]
+        kt = k.t
+        P.assume(g(row, S, *arrs, z3.IntVal(0)) == 0)
+        P.assume(g(row, S, *arrs, kt + 1) == g(row, S, *arrs, kt) + term(kt))
+        P.assume(z3.Implies(kt > 0, g(row, S, *arrs, kt) == g(row, S, *arrs, kt - 1) + term(kt - 1)))
+        return [(P, Num(g(row, S, *arrs, kt), False))]
+    return f
+
+
+SPECFUNS.update({"sumAB": _statsum("AB"), "sumAD": _statsum("AD"), "sumA2": _statsum("A2")})
+
+
+# ------------------------------------------------------------------------------------------- Block.updateWeightedPosition
+# the statistics are rebuilt from the block's variables and the block is moved to the stationary point of its weighted squared
+# displacement; no variable, constraint or other block is touched
+CONTRACTS["vpsc.Block.updateWeightedPosition"] = {
+    "props": ["C05", "C02"], "heap": True,
+    "params": {"self": "ref:Block"},
+    "requires": ["self.vars is not None and self.ps is not None and len(self.vars) >= 1 and self.ps.scale != 0",
+                 "forall(lambda j: implies(0 <= j < len(self.vars), self.vars[j] is not None and self.vars[j].weight > 0 and self.vars[j].scale != 0))"],
+    "modifies": ["Block.posn", "PositionStats.AB", "PositionStats.AD", "PositionStats.A2"], "returns": "none",
+    "loops": {"for i in range(len(self.vars))": {
+        "label": "_sum", "index": "_ku", "locals": {"i": "int"},
+        "modifies": ["PositionStats.AB", "PositionStats.AD", "PositionStats.A2"],
+        "inv": [("stats_kept", "self.ps is old(self.ps) and self.ps.scale == old(self.ps.scale)"),
+                ("A2_nonnegative", "self.ps.A2 >= 0 and implies(_ku >= 1, self.ps.A2 > 0)"),
+                ("running_sums", "self.ps.AB == sumAB(self, _ku) and self.ps.AD == sumAD(self, _ku) and self.ps.A2 == sumA2(self, _ku)"),
+                ("others_untouched", "forall(lambda o: implies(o is not self.ps, o.AB == old(o.AB) and o.AD == old(o.AD) and o.A2 == old(o.A2)), 'ref:PositionStats')")]}},
+    "ensures": [("statistics_are_the_sums_over_the_members", "self.ps.AB == sumAB(self, len(self.vars)) and self.ps.AD == sumAD(self, len(self.vars)) "
+                                                             "and self.ps.A2 == sumA2(self, len(self.vars))"),
+                ("posn_is_stationary", "self.posn * self.ps.A2 == self.ps.AD - self.ps.AB"),
+                ("A2_positive", "self.ps.A2 > 0"),
+                ("other_blocks_stay", "forall(lambda o: implies(o is not self, o.posn == old(o.posn)), 'ref:Block')"),
+                ("other_statistics_stay", "forall(lambda o: implies(o is not self.ps, o.AB == old(o.AB) and o.AD == old(o.AD) and o.A2 == old(o.A2)), 'ref:PositionStats')")],
 }
 
 
